@@ -220,7 +220,7 @@ def split_trace(path, workdir, max_events, tag):
     f_out = None
     with open(path) as f:
         for line in f:
-            is_reset = line.startswith('{"act":"reset"')
+            is_reset = '"act":"reset"' in line[:80]
             if f_out is None or (is_reset and n >= max_events):
                 if f_out:
                     f_out.close()
@@ -291,10 +291,10 @@ def cut_run(chunk_path, at, dest):
     lines = open(chunk_path).read().splitlines()
     at = min(max(at or 1, 1), len(lines))
     start = at - 1
-    while start > 0 and not lines[start].startswith('{"act":"reset"'):
+    while start > 0 and '"act":"reset"' not in lines[start][:80]:
         start -= 1
     end = at
-    while end < len(lines) and not lines[end].startswith('{"act":"reset"'):
+    while end < len(lines) and '"act":"reset"' not in lines[end][:80]:
         end += 1
     with open(dest, "w") as f:
         f.write("\n".join(lines[start:end]) + "\n")
